@@ -236,12 +236,17 @@ impl<'a> Packet<'a> {
     }
 
     fn write_header<T: Write>(&self, out: &mut T) -> crate::Result<()> {
+        // every count is a 16 bits field, a section with more entries can't be written
+        let count = |entries: usize| {
+            u16::try_from(entries).map_err(|_| crate::SimpleDnsError::InvalidDnsPacket)
+        };
+
         self.header.write_to(
             out,
-            self.questions.len() as u16,
-            self.answers.len() as u16,
-            self.name_servers.len() as u16,
-            self.additional_records.len() as u16 + u16::from(self.header.opt.is_some()),
+            count(self.questions.len())?,
+            count(self.answers.len())?,
+            count(self.name_servers.len())?,
+            count(self.additional_records.len() + usize::from(self.header.opt.is_some()))?,
         )
     }
 }
